@@ -128,6 +128,14 @@ fn corpus() -> Vec<(Program, Edb, &'static str)> {
         vec![(2, vec![t1(0), t1(1), t1(2)])],
         "negation-over-intermediate",
     ));
+    // repeated variable in a joined atom (C02 known finding class 5 under join planning)
+    v.push((
+        Program {
+            clauses: vec![Clause { head: 99, args: vec![HV(1)], body: vec![Pos(2, vec![Var(0)]), Pos(0, vec![Var(0), Var(0)]), Pos(1, vec![Var(0), Var(1)])] }],
+        },
+        vec![(2, vec![t1(2), t1(1), t1(0)]), (0, vec![t2(2, 2), t2(1, 2), t2(0, 0)]), (1, vec![t2(2, 2), t2(1, 1), t2(0, 5)])],
+        "repeated-var-join",
+    ));
     // assignment and equality on the same variable (known finding class 4)
     v.push((
         Program {
